@@ -288,7 +288,7 @@ theorem processRun_eq (fs : List Feat) (t : Str) :
 theorem processRuns_ok (fs : List Feat) : ∀ (runs : List (Str × List Feat)),
     (∀ r ∈ runs, r.2 = fs.filter (fun f => f.tag == r.1)) →
     (∀ r ∈ runs, (uidsOf fs r.1 .gene).length ≤ 1) →
-    processRuns runs = .ok (runs.map fun r => groupOf fs r.1)
+    processRuns runs = .ok ((runs.map fun r => groupOf fs r.1).filter fun g => !emptyGroup g)
   | [], _, _ => rfl
   | r :: rs, h1, h2 => by
     obtain ⟨t, g⟩ := r
@@ -297,7 +297,8 @@ theorem processRuns_ok (fs : List Feat) : ∀ (runs : List (Str × List Feat)),
     unfold processRuns
     rw [processRun_eq, if_pos (h2 _ List.mem_cons_self),
       processRuns_ok fs rs (fun r hr => h1 r (List.mem_cons_of_mem _ hr)) (fun r hr => h2 r (List.mem_cons_of_mem _ hr))]
-    rfl
+    simp only [bind, Except.bind, pure, Except.pure, List.map_cons, List.filter_cons]
+    cases emptyGroup (groupOf fs t) <;> rfl
 
 theorem processRuns_err (fs : List Feat) : ∀ (runs : List (Str × List Feat)),
     (∀ r ∈ runs, r.2 = fs.filter (fun f => f.tag == r.1)) →
@@ -360,7 +361,8 @@ theorem dupGene_iff (fs : List Feat) : dupGene fs = true ↔ ∃ t ∈ tagsOf fs
 /-- the grouping in closed form -/
 theorem group_explicit (fs : List Feat) :
     (dupGene fs = true ∧ ansQ (groupByLocusTag fs) = none) ∨
-    (dupGene fs = false ∧ groupByLocusTag fs = .ok ((tagsOf fs).map (groupOf fs))) := by
+    (dupGene fs = false ∧
+      groupByLocusTag fs = .ok (((tagsOf fs).map (groupOf fs)).filter fun g => !emptyGroup g)) := by
   obtain ⟨_, hr, _⟩ := runs_of_sorted fs
   unfold groupByLocusTag groupSorted
   by_cases hd : dupGene fs = true
@@ -380,26 +382,64 @@ theorem group_explicit (fs : List Feat) :
       intro hbad
       exact hd ((dupGene_iff fs).mpr ⟨r.1, List.mem_map_of_mem hr', hbad⟩)
 
+theorem uidsOf_nil_iff (fs : List Feat) (t : Str) (k : Kind) :
+    uidsOf fs t k = [] ↔ ∀ f ∈ fs, f.tag = t → f.kind ≠ k := by
+  simp only [uidsOf, List.map_eq_nil_iff, List.filter_eq_nil_iff, Bool.and_eq_true, beq_iff_eq, not_and]
+
+theorem take1_nil_iff (c : Prop) [Decidable c] (ts : List Nat) : (if c then ts.take 1 else ts) = [] ↔ ts = [] := by
+  cases ts with
+  | nil => simp
+  | cons a as => by_cases h : c <;> simp [h]
+
+/-- a tag yields no group exactly when only features of unknown type carry it -/
+theorem emptyGroup_groupOf (fs : List Feat) (t : Str) :
+    emptyGroup (groupOf fs t) = true ↔ ∀ f ∈ fs, f.tag = t → f.kind = .other := by
+  unfold emptyGroup groupOf
+  simp only [Bool.and_eq_true, Option.isNone_iff_eq_none, List.head?_eq_none_iff, List.isEmpty_iff, take1_nil_iff,
+    uidsOf_nil_iff]
+  constructor
+  · rintro ⟨⟨h1, h2⟩, h3⟩ f hf ht
+    have a := h1 f hf ht; have b := h2 f hf ht; have c := h3 f hf ht
+    cases hk : f.kind <;> simp_all
+  · intro h
+    refine ⟨⟨?_, ?_⟩, ?_⟩ <;> intro f hf ht <;> rw [h f hf ht] <;> simp
+
 /-- MAIN LEMMA for the grouping -/
 theorem group_ok (fs : List Feat) : okGroup fs (ansQ (groupByLocusTag fs)) = true := by
   rcases group_explicit fs with ⟨hd, h⟩ | ⟨hd, h⟩
   · rw [h]; exact hd
   · rw [h]
     simp only [ansQ_ok, okGroup, hd, Bool.not_false, Bool.true_and, Bool.and_eq_true, List.all_eq_true]
-    have hmap : ((tagsOf fs).map (groupOf fs)).map (·.tag) = tagsOf fs := by
-      rw [List.map_map]
-      conv => rhs; rw [← List.map_id (tagsOf fs)]
+    have hmap : (((tagsOf fs).map (groupOf fs)).filter fun g => !emptyGroup g).map (·.tag) =
+        (tagsOf fs).filter fun t => !emptyGroup (groupOf fs t) := by
+      rw [List.filter_map, List.map_map]
+      conv => rhs; rw [← List.map_id ((tagsOf fs).filter fun t => !emptyGroup (groupOf fs t))]
       apply List.map_congr_left
       intro t _; rfl
     refine ⟨⟨?_, ?_⟩, ?_⟩
-    · rw [hmap]; exact sortedStrict_of_pairwise (tagsOf_sorted fs)
+    · rw [hmap]; exact sortedStrict_of_pairwise ((tagsOf_sorted fs).filter _)
     · rw [hmap, sameSet_iff]
       intro t
-      rw [tagsOf_mem]
-      simp only [List.mem_map]
+      simp only [List.mem_filter, tagsOf_mem, Bool.not_eq_true', List.mem_map, knownFeats, bne_iff_ne, ne_eq]
+      constructor
+      · rintro ⟨_, hne⟩
+        have : ¬ (∀ f ∈ fs, f.tag = t → f.kind = .other) := by
+          rw [← emptyGroup_groupOf, hne]; simp
+        apply Classical.byContradiction
+        intro hno
+        apply this
+        intro f hf ht
+        apply Classical.byContradiction
+        intro hk
+        exact hno ⟨f, ⟨hf, hk⟩, ht⟩
+      · rintro ⟨f, ⟨hf, hk⟩, ht⟩
+        refine ⟨⟨f, hf, ht⟩, ?_⟩
+        cases he : emptyGroup (groupOf fs t) with
+        | false => rfl
+        | true => exact absurd ((emptyGroup_groupOf fs t).mp he f hf ht) hk
     · intro g hg
-      simp only [List.mem_map] at hg
-      obtain ⟨t, _, rfl⟩ := hg
+      simp only [List.mem_filter, List.mem_map] at hg
+      obtain ⟨⟨t, _, rfl⟩, _⟩ := hg
       unfold singleChain groupOf
       simp only
       cases hc : (decide ((uidsOf fs t .transcript).length > 1) && decide ((uidsOf fs t .cds).length > 1)) with
@@ -466,6 +506,30 @@ theorem groupsEquiv_map {f g : Str → Group} : ∀ (l : List Str), (∀ x ∈ l
   | [], _ => GroupsEquiv.nil
   | x :: xs, h => GroupsEquiv.cons (h x List.mem_cons_self) (groupsEquiv_map xs fun y hy => h y (List.mem_cons_of_mem _ hy))
 
+theorem perm_isEmpty {l l' : List Nat} (h : l.Perm l') : l.isEmpty = l'.isEmpty := by
+  cases l with
+  | nil => rw [h.nil_eq]
+  | cons a as =>
+    cases l' with
+    | nil => exact absurd h.length_eq (by simp)
+    | cons _ _ => rfl
+
+theorem emptyGroup_equiv {g g' : Group} (h : groupEquiv g g') : emptyGroup g = emptyGroup g' := by
+  obtain ⟨_, h2, h3, h4⟩ := h
+  unfold emptyGroup
+  rw [h2, perm_isEmpty h3, perm_isEmpty h4]
+
+theorem groupsEquiv_filter_map {f g : Str → Group} : ∀ (l : List Str), (∀ x ∈ l, groupEquiv (f x) (g x)) →
+    GroupsEquiv ((l.map f).filter fun x => !emptyGroup x) ((l.map g).filter fun x => !emptyGroup x)
+  | [], _ => GroupsEquiv.nil
+  | x :: xs, h => by
+    have ih := groupsEquiv_filter_map xs fun y hy => h y (List.mem_cons_of_mem _ hy)
+    have hx := h x List.mem_cons_self
+    simp only [List.map_cons, List.filter_cons, ← emptyGroup_equiv hx]
+    cases emptyGroup (f x)
+    · exact GroupsEquiv.cons hx ih
+    · exact ih
+
 /-- ORDER INDEPENDENCE of the grouping: a permuted record raises iff the original does, and otherwise yields the
     same groups up to the order of the transcript / CDS children (every tag a single chain). -/
 theorem group_perm {fs fs' : List Feat} (hp : fs.Perm fs') (hc : ∀ f ∈ fs, singleChain fs f.tag = true) :
@@ -479,7 +543,7 @@ theorem group_perm {fs fs' : List Feat} (hp : fs.Perm fs') (hc : ∀ f ∈ fs, s
     · rw [dupGene_perm hp, hd'] at hd; cases hd
     · refine Or.inr ⟨_, _, h, h', ?_⟩
       rw [← tagsOf_perm hp]
-      apply groupsEquiv_map
+      apply groupsEquiv_filter_map
       intro t ht
       obtain ⟨f, hf, rfl⟩ := (tagsOf_mem fs t).mp ht
       refine groupOf_equiv hp f.tag ?_ (hc f hf)
